@@ -669,8 +669,12 @@ class PacketReactor(object):
             packet_data.send(stream.read(length))
             # Ensure we read all the packet
             while len(packet_data.get_writable()) < length:
-                packet_data.send(
-                    stream.read(length - len(packet_data.get_writable())))
+                data = stream.read(length - len(packet_data.get_writable()))
+                if not data:
+                    # End of stream in the middle of a packet: without this
+                    # check, this loop would never terminate.
+                    raise EOFError("Unexpected end of message.")
+                packet_data.send(data)
             packet_data.reset_cursor()
 
             if self.connection.options.compression_enabled:
